@@ -1,0 +1,7 @@
+//go:build verif
+
+package coder
+
+// Read-only exports for the verification harness (build tag verif only).
+
+const VerifMessageMaxLen = messageMaxLen
